@@ -54,6 +54,7 @@ def main(argv=None) -> int:
         rep = Report(a.pid, a.tier, seed)
         if a.replay:
             case = json.load(open(a.replay))
+            rep.is_replay = True
             mod.replay(rep, case)
         else:
             try:
